@@ -15,6 +15,9 @@ INVARIANT LawWrongMsgOnlyFillsI
 INVARIANT LawMonotoneI
 INVARIANT LawDuplicateI
 INVARIANT LawSingleI
+INVARIANT LawBoundedI
+INVARIANT LawFullCreditHitI
+INVARIANT LawCreditMonotoneI
 INVARIANT LawNotationI
 INVARIANT LawCodeRefinesI
 INVARIANT LawCodeCallsI
